@@ -415,7 +415,10 @@ so a non-canonical map key counts too. -/
 def wireValues (h : Headers) (key : Bytes) : List Bytes :=
   (sortEntries (h.filter fun e => canonicalMIMEHeaderKey e.1 == canonicalMIMEHeaderKey key)).flatMap (·.2)
 
-def lastIndexOf (c : UInt8) (s : Bytes) : Option Nat := lastIndexByte c s
+/-- The cookie-pairs a receiver finds in the Cookie values, whatever the framing: HTTP/2 sends every
+pair as its own header field (and none for an empty value), HTTP/1.1 the lines as they are. -/
+def cookieCrumbs (vals : List Bytes) : List Bytes :=
+  (vals.flatMap fun v => (splitOn 59 v).map trimString).filter fun c => !c.isEmpty
 
 /-- http.go `removeZone`: the zone of a bracketed IPv6 literal is not sent in `Host`. -/
 def removeZone (host : Bytes) : Bytes :=
@@ -517,12 +520,15 @@ structure AltSvc where
   port : Bytes := []
   deriving DecidableEq, Repr
 
-/-- netutil `AuthorityHostPort` on ASCII authorities: `net.SplitHostPort`, and on its error the whole
-authority with the scheme's default port. -/
+/-- netutil `AuthorityHostPort` on ASCII authorities (WITH fixes/C11-3): `net.SplitHostPort`, and on its
+error the whole authority — minus the brackets of a port-less IPv6 literal — with the scheme's default
+port. Before the fix the brackets stayed, and `ConvertURL` produced `[[::1]]:port`. -/
 def authorityHostPort (scheme : Scheme) (authority : Bytes) : Bytes × Bytes :=
   match Legacy.netSplitHostPort authority with
   | .ok (h, p) => (h, p)
-  | .error _ => (authority, match scheme with | .http => [56, 48] | .https => [52, 52, 51])
+  | .error _ =>
+    (if hasPrefixByte 91 authority && hasSuffixByte 93 authority then (authority.drop 1).dropLast else authority,
+     match scheme with | .http => [56, 48] | .https => [52, 52, 51])
 
 /-- `net.JoinHostPort`. -/
 def joinHostPort (h p : Bytes) : Bytes := if h.contains 58 then 91 :: h ++ 93 :: 58 :: p else h ++ 58 :: p
